@@ -131,6 +131,19 @@ def worker(x):
             if k == "euler":
                 a = [ang(t, True) for t in cs["a"]]
                 M = G(mod.euler_to_u, *a)
+                if x["den"] % 3 == 0:
+                    # "for all real arguments": outside [0, 2pi] the input check refuses the call, so the composition is compared
+                    # with the switch off (and the switch is restored)
+                    import xfab
+                    was = xfab.CHECKS.activated
+                    try:
+                        xfab.CHECKS.activated = False
+                        M2 = np.asarray(mod.euler_to_u(a[0] + s1, a[1] + s2, a[2] - abs(s3)), dtype=float)
+                    finally:
+                        xfab.CHECKS.activated = was
+                    if np.abs(M2 - ex).max() > 2e-11:
+                        out.append("euler_to_u with angles shifted by multiples of 2 pi (checks off) differs from Rz.Rx.Rz by %.3g (%s)" %
+                                   (float(np.abs(M2 - ex).max()), tag))
             elif k == "omega":
                 M = G(mod.form_omega_mat, ang(cs["a"][0]) + s1)
             elif k == "general":
